@@ -225,8 +225,16 @@ def _make_empty_cog(
         else:
             kw = {**opts_common, "subfiletype": FILETYPE.REDUCEDIMAGE}
 
+        tile_data: Any = itertools.repeat(b"")
+        if int(_compression) == 1 and im_shape.shape == tuple(tile):
+            # tifffile stores an uncompressed image that is exactly one tile
+            # contiguously: it drains the iterator and insists on real pixels
+            nb = np.dtype(dtype).itemsize * tile[0] * tile[1]
+            nb = nb * nsamples if ax == "YXS" else nb
+            tile_data = itertools.repeat(bytes(nb), meta.num_tiles)
+
         tw.write(
-            itertools.repeat(b""),
+            tile_data,
             shape=_sh(im_shape),
             tile=tile,
             **kw,
